@@ -2196,16 +2196,9 @@ func (ts *TokenStore) revokeInternal(ctx context.Context, saltedID string, skipO
 				continue
 			}
 
-			lock := locksutil.LockForKey(ts.tokenLocks, entry.ID)
-			lock.Lock()
-
-			entry.Parent = ""
-			err = ts.store(childCtx, entry)
-			if err != nil {
-				lock.Unlock()
+			if err := ts.clearParent(childCtx, child, entry.ID); err != nil {
 				return fmt.Errorf("failed to update child token: %w", err)
 			}
-			lock.Unlock()
 
 			// Delete the the child storage entry after we update the token entry Since
 			// paths are not deeply nested (i.e. they are simply
@@ -2219,6 +2212,28 @@ func (ts *TokenStore) revokeInternal(ctx context.Context, saltedID string, skipO
 	}
 
 	return nil
+}
+
+// clearParent turns the token with the given salted and plain ID into an
+// orphan. The entry is read again with the token's lock held, so that a use
+// of the token recorded since the caller looked it up (see UseToken) is not
+// overwritten with a stale copy.
+func (ts *TokenStore) clearParent(ctx context.Context, saltedID, id string) error {
+	lock := locksutil.LockForKey(ts.tokenLocks, id)
+	lock.Lock()
+	defer lock.Unlock()
+
+	entry, err := ts.lookupInternal(ctx, saltedID, true, true)
+	if err != nil {
+		return err
+	}
+	if entry == nil {
+		// Revoked in the meantime
+		return nil
+	}
+
+	entry.Parent = ""
+	return ts.store(ctx, entry)
 }
 
 // revokeTree is used to invalidate a given token and all
@@ -2512,6 +2527,7 @@ func (ts *TokenStore) handleTidy(ctx context.Context, req *logical.Request, data
 					// namespace carries that namespace's ID as suffix; such a
 					// child has to be looked up in its own namespace.
 					var te *logical.TokenEntry
+					childCtx := quitCtx
 					saltedChild, childNSID := namespace.SplitIDFromString(child)
 					if childNSID == "" {
 						te, _ = ts.lookupInternal(quitCtx, saltedChild, true, true)
@@ -2527,21 +2543,17 @@ func (ts *TokenStore) handleTidy(ctx context.Context, req *logical.Request, data
 								// leave its index entry alone
 								continue
 							}
-							te, _ = ts.lookupInternal(namespace.ContextWithNamespace(quitCtx, childNS), saltedChild, true, true)
+							childCtx = namespace.ContextWithNamespace(quitCtx, childNS)
+							te, _ = ts.lookupInternal(childCtx, saltedChild, true, true)
 						}
 					}
 					// If the child entry is not nil, but the parent doesn't exist, then turn
 					// that child token into an orphan token. Theres no deletion in this case.
 					if te != nil && exists == nil {
-						lock := locksutil.LockForKey(ts.tokenLocks, te.ID)
-						lock.Lock()
-
-						te.Parent = ""
-						err = ts.store(quitCtx, te)
+						err = ts.clearParent(childCtx, saltedChild, te.ID)
 						if err != nil {
 							tidyErrors = multierror.Append(tidyErrors, fmt.Errorf("failed to convert child token into an orphan token: %w", err))
 						}
-						lock.Unlock()
 						continue
 					}
 					// Otherwise, if the entry doesn't exist, or if the parent doesn't exist go
